@@ -396,6 +396,38 @@ def run(ck: Checker):
                 qd = dotted(method_of(c_)[0])
                 if qd and qd.startswith('self.') and 'queue' in qd.lower() and qd not in start_puts:
                     probs.append(f'{h.qualname} L{c_.lineno}: `{norm_text(c_)}` is the parent\'s first put on that multiprocessing queue (start() makes none): it has to start the queue\'s feeder thread, which fails during interpreter shutdown — a child that outlives the main thread leaves the logger thread without its end marker, the parent never exits')
+    ck.rule('C20-7', 'the forwarding handler stays installed until the child has nothing left to say: from the point where run() removes the handler (or closes its end of the log queue) no path leads to the target, to handle_exception — which users override and which logs — or to the delivery of the outcome (pickling it runs user code): records emitted there would be dropped')
+    check_forwarding_until_end(ck, 'C20-7', cls)
     ck.rule('C20-6', 'while the child may be alive the log queue is written by the child only: a put by the parent registers an exit finaliser that closes the queue when the parent process exits, before it joins children that are still logging (nested processes hang) (WHO)')
     check_parent_never_puts(ck, 'C20-6', cls, spawn_bind)
     ck.ob('C20-5', st, (st.node.lineno, 'late creations'), not probs, '; '.join(sorted(set(probs))) if probs else f'{len(helpers)} helper threads, all started in start(); no helper thread makes a first put on a multiprocessing queue')
+
+
+def check_forwarding_until_end(ck: Checker, rid: str, cls):
+    f = next(m for m in cls.methods() if m.name == 'run')
+    sc = Scope(f)
+    cfg = build_cfg(f, ck.repo, make_fallible(sc, iters=set(), calls={'self._target', 'self.handle_exception'}))
+    ck.analysed_func(f, cfg)
+    ends = []
+    for n in cfg.nodes:
+        a = header_expr(n)
+        for c in (calls_in(a) if a is not None else []):
+            if method_of(c)[1] == 'removeHandler':
+                ends.append(n)
+    if not ends:
+        ck.ob(rid, f, f.node, True, 'run() never removes the forwarding handler: it stays for the life of the child')
+        return
+    probs = []
+    for en in ends:
+        after = reachable(cfg, [e.dst for e in cfg.succ[en.id]], edge_ok=lambda ed: True)
+        for k in sorted(after):
+            n = cfg.nodes[k]
+            if n.id == en.id:
+                continue
+            a = header_expr(n)
+            for c in (calls_in(a) if a is not None else []):
+                d = dotted(c.func) or ''
+                r, me = method_of(c)
+                if d in ('self._target', 'self.handle_exception') or (me == 'send' and r is not None) or d == 'logging.exception' or d.startswith('logger.'):
+                    probs.append(f'L{n.lineno}: `{norm_text(c)[:50]}` can run after the forwarding handler was removed at L{en.lineno}: what it logs never reaches the parent')
+    ck.ob(rid, f, ends[0].ast, not probs, '; '.join(sorted(set(probs))[:3]) if probs else f'{len(ends)} removal site(s) of the forwarding handler; nothing that can log runs after them')
